@@ -249,8 +249,10 @@ impl TryFromTerm for f64 {
             if Term::eq(&term.datatype().unwrap(), xsd::double)
                 || Term::eq(&term.datatype().unwrap(), xsd::decimal)
             {
+                check_non_finite_spelling(&lex)?;
                 lex.parse()
             } else if Term::eq(&term.datatype().unwrap(), xsd::float) {
+                check_non_finite_spelling(&lex)?;
                 // the value space of xsd:float is that of f32:
                 // e.g. "0.1"^^xsd:float denotes 0.1f32, which differs from 0.1f64
                 lex.parse::<f32>().map(f64::from)
@@ -260,6 +262,20 @@ impl TryFromTerm for f64 {
         } else {
             "not a literal".parse()
         }
+    }
+}
+
+/// Rust's float parser accepts, in any letter case, the spellings "inf", "infinity" and "nan"
+/// (with an optional sign) of the non-finite values,
+/// while the only lexical forms of XSD for them are "INF", "+INF", "-INF" and "NaN".
+/// Reject the spellings that are not XSD lexical forms.
+fn check_non_finite_spelling(lex: &str) -> Result<(), std::num::ParseFloatError> {
+    let body = lex.strip_prefix(['+', '-']).unwrap_or(lex);
+    match body.as_bytes().first() {
+        Some(b'i' | b'I' | b'n' | b'N') if !matches!(lex, "INF" | "+INF" | "-INF" | "NaN") => {
+            "not an XSD lexical form".parse::<f64>().map(|_| ())
+        }
+        _ => Ok(()),
     }
 }
 
